@@ -5,6 +5,7 @@ notification of all dependents and a drained worklist, and the shape of the tran
 from __future__ import annotations
 
 import ast
+import re
 
 from ..astutil import call_attr, calls_in, guard_facts, parent_map, unparse, walk_local
 from ..cfg import CFG
@@ -133,6 +134,15 @@ def check_dependencies(idx: Index, rep: Report) -> None:
     impl = idx.func(LA, "LivenessAnalysis.visit_operation_impl")
     reads = [n for n in walk_local(impl.node) if isinstance(n, ast.Attribute) and n.attr == "is_live" and isinstance(n.ctx, ast.Load)]
     loops = {unparse(w.target): unparse(w.iter) for w in walk_local(impl.node) if isinstance(w, ast.For)}
+    for comp in [x for x in ast.walk(impl.node) if isinstance(x, (ast.GeneratorExp, ast.ListComp, ast.SetComp))]:
+        for gen in comp.generators:
+            loops.setdefault(unparse(gen.target), unparse(gen.iter))
+    # a local bound to an element of result_lattices (next(... for r in result_lattices ...), result_lattices[i])
+    for st_ in walk_local(impl.node):
+        if isinstance(st_, ast.Assign) and len(st_.targets) == 1 and isinstance(st_.targets[0], ast.Name):
+            vt_ = unparse(st_.value)
+            if re.fullmatch(r"next\(\((\w+) for \1 in result_lattices( if .*)?\), None\)", vt_) or re.fullmatch(r"result_lattices\[\w+\]", vt_):
+                loops.setdefault(st_.targets[0].id, "result_lattices")
     badr = [n for n in reads if loops.get(unparse(n.value)) != "result_lattices"]
     if badr:
         r.fail(impl.fq + ":reads", Finding("C25.R3", impl.fq, "unregistered-read", f"`{unparse(badr[0])}` reads the state of a lattice that was not registered as a dependency", impl.loc))
